@@ -44,7 +44,7 @@ Qed.
 
 Lemma strip_id ws l : (forall x, In x l -> ws x = false) -> strip ws l = l.
 Proof.
-  intros H. unfold strip. rewrite (lstrip_id ws l H).
+  intros H. unfold strip, frev. rewrite <- !rev_alt. rewrite (lstrip_id ws l H).
   rewrite lstrip_id by (intros x Hx; apply H; apply in_rev; exact Hx).
   apply rev_involutive.
 Qed.
